@@ -1,16 +1,17 @@
 """Which units (and extra engines) serve which property, plus MANIFEST metadata."""
-UNITS = ['u_list', 'u_jobs', 'u_tok', 'u_plan', 'u_exp1', 'u_calc', 'u_exp2', 'u_wait', 'u_fd', 'u_env', 'u_args']
+UNITS = ['u_list', 'u_jobs', 'u_tok', 'u_plan', 'u_exp1', 'u_calc', 'u_exp2', 'u_wait', 'u_fd', 'u_env', 'u_args', 'u_proc']
 
 PROPERTY_UNITS = {
     'C03': ['u_list'],
     'C06': ['u_jobs', 'u_wait'],
-    'C05': ['u_list', 'u_jobs', 'u_tok', 'u_plan', 'u_exp1', 'u_calc', 'u_exp2', 'u_wait', 'u_fd', 'u_env', 'u_args'],
+    'C05': ['u_list', 'u_jobs', 'u_tok', 'u_plan', 'u_exp1', 'u_calc', 'u_exp2', 'u_wait', 'u_fd', 'u_env', 'u_args', 'u_proc'],
     'C01': ['u_plan', 'u_exp1', 'u_exp2'],
     'C13': ['u_plan', 'u_exp1', 'u_exp2'],
     'C12': ['u_exp1', 'u_exp2'],
     'C10': ['u_exp2'],
+    'C07': ['u_fd', 'u_proc', 'u_plan', 'u_jobs', 'u_wait'],
     'C15': ['u_args'],
-    'C09': ['u_env', 'u_exp2'],
+    'C09': ['u_env', 'u_exp2', 'u_proc'],
     'C02': ['u_fd', 'u_wait', 'u_plan'],
     'C04': ['u_fd', 'u_plan'],
     'C08': ['u_fd'],
@@ -135,6 +136,15 @@ META['C15'] = {
             'source, exit and set -e are external and not covered (see C14).',
 }
 
+META['C07'] = {
+    'text': 'Hand-off protocol only. Over a ghost terminal-owner variable Verus proves: each stage reaches exec in the process group of the first stage (stage 0 leads its own group, '
+            'the shell records that pid as the group id); the terminal is given only to the first stage of a foreground tty pipeline, never to a background one, and only if that is '
+            'reported to the caller; run_proc takes the terminal back on every return path; a line is background exactly when its last token is an unquoted "&"; the job-state '
+            'bookkeeping clauses shared with C06 (Stopped iff all members stopped as computed; no background event lost).',
+    'note': 'NOT covered (outside any single-call contract): what Ctrl-C / Ctrl-Z do, that bg / fg resume the whole group (SIGCONT), the text printed by jobs, report-once; kernel tty '
+            'layer and tcsetpgrp success assumed; fg/bg builtins not under contract.',
+}
+
 _PENDING = 'not yet brought under contract in this revision of /verif (work in progress; see DESIGN.md)'
 NOT_APPLICABLE = {
     'C14': 'parse tree comes from a macro-generated pest parser and the external, lifetime-parameterised pest::iterators::Pair type; no contract within reach',
@@ -142,5 +152,5 @@ NOT_APPLICABLE = {
     'C18': 'semantics live in SQLite\'s SQL parser (bundled C library); SQL is built with format!, outside Verus',
     'C20': 'needs the lineread completer protocol, a populated filesystem and the escaped-word round trip (a recorded C01 violation)',
 }
-for _p in ['C07', 'C11']:
+for _p in ['C11']:
     NOT_APPLICABLE.setdefault(_p, _PENDING)
